@@ -7,6 +7,7 @@
 import WS.Lemmas.AppLost
 namespace WS.Props.C15c
 open WS WS.Model.App WS.Lemmas.App
+open WS.Spec.AppTrace (cbOnly)
 
 /-- **C15_resumes** — reconnect interval `r > 0`, callbacks that return or raise, any subset of callbacks.  The attempts
     `a :: as` each fail or are established-then-lost (`Att.Ok`); the next one is established, carries `legal` and is
@@ -17,7 +18,12 @@ open WS WS.Model.App WS.Lemmas.App
     dial), the dial exactly `r` later on the next socket index, and that attempt's own release (`attsTrace`); finally
     `sleep r`, release, the successful dial number `|as| + 2`, and after the server's close frame no further dial —
     the last reference is dropped and `run_forever` returns.  So service is restored after EVERY loss, one connection
-    at a time, each retry exactly one interval after the loss. -/
+    at a time, each retry exactly one interval after the loss.
+    Callbacks (third conjunct): the first attempt's failure or loss is reported to on_error once (`attCb … false`); a
+    re-established connection that is lost again reports NOTHING to on_error (`handleDisconnect(e, reconnecting=True)`);
+    every established connection starts with its opening callback (on_reconnect for a re-established one when set, else
+    on_open) and delivers exactly the Spec's `expectedDeliveries` at their arrival times (`attCb`, `attsCb`); the last
+    connection ends with on_close(code, reason) of the server's close frame, called once, last (`finalCb`). -/
 theorem C15_resumes (c : Cfg) (hq : Quiet c) (hacc : argsAccepted c.iv c.to = true) (hiv : c.iv = 0)
     (hr : c.reconnect ≠ 0) (s0 : St) (a : Att) (as : List Att) (legal : List TEv) (te : TEv) (body : Bytes)
     (hs0 : s0.sock = none) (hp0 : s0.ping = none) (hl0 : s0.lastPing = 0)
@@ -39,17 +45,21 @@ theorem C15_resumes (c : Cfg) (hq : Quiet c) (hacc : argsAccepted c.iv c.to = tr
       netOnly s0.trace ++ [(s0.now, .dial s0.nextIdx)] ++ attClose s0.now s0.nextIdx a ++
         attsTrace r t1 i1 o1 as ++
         [(tK, .sleep r)] ++ relTrace (tK + r) (attsOpen i1 o1 as) ++
-        [(tK + r, .dial iK), (tEnd, .sockDropped iK), (tEnd, .returned true)] := by
+        [(tK + r, .dial iK), (tEnd, .sockDropped iK), (tEnd, .returned true)] ∧
+    cbOnly (runForever c s0).trace =
+      cbOnly s0.trace ++ (attCb c false s0.calls s0.now a).1 ++
+        (attsCb c r (attCb c false s0.calls s0.now a).2 t1 as).1 ++
+        finalCb c (attsCb c r (attCb c false s0.calls s0.now a).2 t1 as).2 (tK + r) legal te body := by
   intro r t1 i1 o1 tK iK tEnd
   have hT := selectTimeout_pos c hacc
   have hz1 : attEnd s0.now a ≤ c.horizon := by
     have := attsEnd_ge c.reconnect as (attEnd s0.now a)
     have := endTime_ge (attsEnd c.reconnect (attEnd s0.now a) as + c.reconnect) (legal ++ [te])
     omega
-  obtain ⟨s1, e1, e2, e3, e4, e5, e6, e7⟩ := first_attempt c hq hT hiv hr s0 a
+  obtain ⟨s1, e1, e2, e3, e4, e5, e6, e7, e8, e9⟩ := first_attempt c hq hT hiv hr s0 a
     (as.map Att.toDial ++ [.established (legal ++ [te])]) hs0 hp0 hl0 (by simpa using hd) (hok a (by simp))
     (hfl a (by simp)) hz1
-  obtain ⟨sF, f1, f2, f3, f4, f5, f6, f7, f8⟩ := rl_mixed c hq hT hiv hr legal te body hleg hk hfuel as s1 c.fuel e2 e3
+  obtain ⟨sF, f1, f2, f3, f4, f5, f6, f7, f8, f9⟩ := rl_mixed c hq hT hiv hr legal te body hleg hk hfuel as s1 c.fuel e2 e3
     (fun x hx => hok x (by simp [hx])) (fun x hx => hfl x (by simp [hx])) hfuel2 (by rw [e5]; exact hz)
   have hrun : runForeverO c s0 = (sF.emit (.returned true), .returned true) := by
     unfold runForeverO
@@ -59,11 +69,15 @@ theorem C15_resumes (c : Cfg) (hq : Quiet c) (hacc : argsAccepted c.iv c.to = tr
     simp only [hr, ne_eq, not_false_eq_true, ↓reduceIte]
     rw [f1, afterBody_done c _ f2]
     simp only [f3]
-  refine ⟨by rw [hrun], ?_⟩
-  unfold runForever
-  rw [hrun]
-  simp only [St.emit, netOnly_append, f8, e7, e4, e5, e6, f7]
-  simp [netOnly, List.append_assoc, r, t1, i1, o1, tK, iK, tEnd]
+  refine ⟨by rw [hrun], ?_, ?_⟩
+  · unfold runForever
+    rw [hrun]
+    simp only [St.emit, netOnly_append, f8, e7, e4, e5, e6, f7]
+    simp [netOnly, List.append_assoc, r, t1, i1, o1, tK, iK, tEnd]
+  · unfold runForever
+    rw [hrun]
+    simp only [St.emit, cbOnly_append, f9, e8, e9, e5]
+    simp [cbOnly, List.append_assoc, r, t1, tK]
 
 /-- the retries of `C15_resumes` are evenly spaced: each attempt is dialled exactly `r` after the previous one was over,
     preceded by a `sleep r` that started at that very tick (read off `attsTrace`; the first three or four entries) -/
@@ -120,5 +134,103 @@ example :
        (1224, .sleep 1024), (2248, .dial 2), (2273, .sleep 1024), (3297, .sockClosed 2), (3297, .dial 3),
        (3407, .sockDropped 3), (3407, .returned true)] := by
   decide
+
+/-- a trace without `sockDropped` (the real run observes the dropping of the last reference through garbage collection only;
+    the correspondence compares traces without it) -/
+def noDrop (tr : Trace) : Trace :=
+  tr.filter fun te => match te.2 with | .sockDropped _ => false | _ => true
+
+theorem noDrop_append (a b : Trace) : noDrop (a ++ b) = noDrop a ++ noDrop b := by simp [noDrop]
+
+theorem noDrop_attClose (t i : Nat) (a : Att) : noDrop (attClose t i a) = attClose t i a := by
+  cases a with
+  | fail d => simp [noDrop, attClose]
+  | lost legal te => by_cases h : te.ev = .eof <;> simp [noDrop, attClose, h]
+
+theorem noDrop_relTrace (t : Nat) (o : Option Nat) : noDrop (relTrace t o) = relTrace t o := by
+  cases o <;> simp [noDrop, relTrace]
+
+theorem noDrop_attsTrace (r : Nat) : ∀ (as : List Att) (t i : Nat) (o : Option Nat),
+    noDrop (attsTrace r t i o as) = attsTrace r t i o as := by
+  intro as
+  induction as with
+  | nil => intro t i o; simp [noDrop, attsTrace]
+  | cons a l ih =>
+    intro t i o
+    simp only [attsTrace, noDrop_append, noDrop_attClose, noDrop_relTrace, ih]
+    simp [noDrop]
+
+/-- **C15_resumes_closed_form** — `C15_resumes` for a freshly constructed object, as ONE executable function of the world:
+    the network skeleton of the run (without `sockDropped`) is `resumesSkeleton r a as final`.  The driver op `s-c15-resumes`
+    evaluates exactly this function, and `harness/props/c15.py` compares it with the skeleton of the REAL `run_forever` on every
+    world of that shape — the theorem's closed form is tied to the code directly, not only through the model. -/
+theorem C15_resumes_closed_form (c : Cfg) (hq : Quiet c) (hacc : argsAccepted c.iv c.to = true) (hiv : c.iv = 0)
+    (hr : c.reconnect ≠ 0) (a : Att) (as : List Att) (legal : List TEv) (te : TEv) (body : Bytes)
+    (hok : ∀ x ∈ a :: as, x.Ok)
+    (hleg : ∀ e ∈ legal, isLegal e.ev = true) (hk : te.ev = .close body)
+    (hfuel : need0 (selectTimeout c) (legal ++ [te]) + 1 ≤ c.fuel)
+    (hfl : ∀ x ∈ a :: as, x.fuel (selectTimeout c) ≤ c.fuel) (hfuel2 : as.length + 2 ≤ c.fuel)
+    (hz : endTime (attsEnd c.reconnect (attEnd 0 a) as + c.reconnect) (legal ++ [te]) ≤ c.horizon) :
+    noDrop (netOnly (runForever c { dials := (a :: as).map Att.toDial ++ [.established (legal ++ [te])] }).trace) =
+      resumesSkeleton c.reconnect a as (legal ++ [te]) := by
+  have h := (C15_resumes c hq hacc hiv hr { dials := (a :: as).map Att.toDial ++ [.established (legal ++ [te])] }
+    a as legal te body rfl rfl rfl rfl hok hleg hk hfuel hfl hfuel2 hz).2.1
+  simp only at h
+  rw [h]
+  simp only [resumesSkeleton, noDrop_append, noDrop_attClose, noDrop_relTrace, noDrop_attsTrace, netOnly]
+  simp [noDrop, Nat.add_comm]
+
+/-- the world of the example above is recognised by `resumesOfWorld` and gives the computed skeleton -/
+example :
+    let c : Cfg := { has := fun _ => true, plan := fun _ => [], iv := 0, to := none, payload := [],
+                     reconnect := 1024, ssl := false, horizon := 100000, fuel := 50 }
+    let w : List Dial := [.established [⟨100, false, .message 2 [1] false⟩, ⟨100, false, .eof⟩], .refused,
+                          .established [⟨5, false, .ping [7]⟩, ⟨20, false, .reset⟩],
+                          .established [⟨70, false, .message 1 [0x61] false⟩, ⟨40, false, .close [3, 232]⟩]]
+    resumesOfWorld 1024 w = some (noDrop (netOnly (runForever c { dials := w }).trace)) := by
+  decide
+
+/-- the socket indices of the connection attempts in a trace, in order -/
+def dialIdx (tr : Trace) : List Nat := tr.filterMap fun te => match te.2 with | .dial i => some i | _ => none
+
+theorem dialIdx_append (a b : Trace) : dialIdx (a ++ b) = dialIdx a ++ dialIdx b := by simp [dialIdx]
+
+theorem dialIdx_attClose (t i : Nat) (a : Att) : dialIdx (attClose t i a) = [] := by
+  cases a with
+  | fail d => simp [dialIdx, attClose]
+  | lost legal te => by_cases h : te.ev = .eof <;> simp [dialIdx, attClose, h]
+
+theorem dialIdx_relTrace (t : Nat) (o : Option Nat) : dialIdx (relTrace t o) = [] := by
+  cases o <;> simp [dialIdx, relTrace]
+
+/-- **C15_resumes_one_dial_per_attempt** — in the retries of `C15_resumes` every attempt is dialled exactly once, on the next
+    socket index: no loss is followed by two attempts, none by none. -/
+theorem C15_resumes_one_dial_per_attempt (r : Nat) : ∀ (as : List Att) (t i : Nat) (o : Option Nat),
+    dialIdx (attsTrace r t i o as) = List.range' i as.length := by
+  intro as
+  induction as with
+  | nil => intro t i o; simp [dialIdx, attsTrace]
+  | cons a l ih =>
+    intro t i o
+    simp only [attsTrace, dialIdx_append, dialIdx_attClose, dialIdx_relTrace, ih, List.length_cons]
+    simp [dialIdx, List.range'_succ]
+
+/-- and every retry sleeps exactly the configured interval: the sleeps of `attsTrace` are `|as|` times `r` -/
+theorem C15_resumes_sleeps (r : Nat) : ∀ (as : List Att) (t i : Nat) (o : Option Nat),
+    (attsTrace r t i o as).filterMap (fun te => match te.2 with | .sleep d => some d | _ => none) =
+      List.replicate as.length r := by
+  intro as
+  induction as with
+  | nil => intro t i o; simp [attsTrace]
+  | cons a l ih =>
+    intro t i o
+    have hc : (attClose (t + r) i a).filterMap (fun te => match te.2 with | .sleep d => some d | _ => none) = [] := by
+      cases a with
+      | fail d => simp [attClose]
+      | lost legal te => by_cases h : te.ev = .eof <;> simp [attClose, h]
+    have hr : (relTrace (t + r) o).filterMap (fun te => match te.2 with | .sleep d => some d | _ => none) = [] := by
+      cases o <;> simp [relTrace]
+    simp only [attsTrace, List.filterMap_append, hc, hr, ih, List.length_cons]
+    simp [List.replicate_succ]
 
 end WS.Props.C15c
